@@ -87,6 +87,16 @@ CHECKS = {
             "summary rows are the counts of info/warn/error/fatal among the printed results. Tied to the code by running the binary built from /repo on corpus objects in all encodings, from files and stdin, under six selections, "
             "with mismatched suffix/format combinations, several files per invocation, undecodable inputs and unknown selectors.",
             "DESIGN.md 5/C15", "The OS process boundary (exit status, buffering) is observed, not modelled; encoding/pem is an oracle."),
+    "C05": (True, "Coq theorem: history independence/repeatability from the frame condition + kernel-checked allow-list obligations over regenerated SSA facts (I/O callees, imports, global/object writes, map iterations) + repetition, random histories, object comparison (strace in thorough)",
+            "Proof (partial): if every lint call leaves the global store and the object unchanged and its result does not depend on the store, then for every history of earlier calls the result equals the result of the call alone "
+            "and the object comes back unchanged (c05_history_independent). The regenerated facts must stay inside the design's allow-lists (time.Now only in the two AIA lints; os only in package lint; no writes to globals or the object; "
+            "map iterations only at reviewed order-insensitive sites). Explored: that the facts imply the frame condition for each of the ~377 bodies - by 12 repetitions per object incl. generated map-order certificates, random histories and exported-field comparison.",
+            "DESIGN.md 5/C05", "The SSA analysis is a heuristic over-approximation (trusted). Genuine defects found here (map-order details, random status of the KU/EKU lint) were repaired in /repo."),
+    "C09": (True, "Coq meta-theorem (signature-blind bodies => signature-independent result set; parser-side rule) + kernel-checked allow-list over regenerated field-read facts + signature replacement on every non-self-issued corpus certificate",
+            "Proof (partial): for a certificate that is not self-issued, any two signatures of the same length give equal result sets provided every body and the framework's own reads factor through the erased view "
+            "(content, signature length, SelfSigned), which the parser fixes to false for non-self-issued certificates (c09_meta, c09_parser_side). The facts 'which lint reads Signature/Raw/fingerprints/ValidationLevel/SelfSigned and where' are "
+            "regenerated from go/ssa each run and must stay inside the allow-list. Explored: signature payload replaced by zeros/random/... in all 848 non-self-issued corpus certificates, status and details of all certificate lints compared.",
+            "DESIGN.md 5/C09", "That the allow-listed reads are length-only / structure-only is confirmed dynamically, not proved."),
 }
 
 REASON_PENDING = "check not built yet in this session; planned (see DESIGN.md section 5)"
